@@ -48,7 +48,7 @@ for nm, hdr, sig in (('utils__char_to_idx', r'constexpr\s+size_t\s+char_to_idx\s
 
 PRELUDE = r'''
 int vx_thrown;
-struct source_point { size32_t line; size32_t column; };
+struct source_point { vx_sp_line_t line; vx_sp_col_t column; };   /* member types from the real declaration (R16) */
 struct match_options { bool verbose; };
 struct recognized_term { size16_t term_idx; vx_rt_len_t len; };   /* member type from the real declaration (R16) */
 static inline struct recognized_term recognized_term__default(void) { struct recognized_term r = { uninitialized16, uninitialized16 }; return r; }
